@@ -186,8 +186,12 @@ func C05dispatch(p *load.Program, run *report.Run) {
 		run.Undecided("alias-set", "compiler/ssa.Program.GC", "", "function not found")
 		return
 	}
+	// which inputs of an alias opcode GC treats as sources of the output's wires: position sets per opcode.
+	// Two spellings are read: the switch in GC itself (every non-constant input of the listed opcodes), and a
+	// method of Instr that GC ranges over, whose switch returns i.In or a constant sub-slice of it.
+	gc := map[string]map[int]bool{}
+	all := map[int]bool{0: true, 1: true, 2: true, 3: true}
 	arms, _ := dispatch.SwitchArms(p, pkgG, fdG, "<Step>.Instr.Op")
-	gc := map[string]bool{}
 	for _, a := range arms {
 		appendsAlias := false
 		for _, b := range a.Node.(*ast.CaseClause).Body {
@@ -204,9 +208,109 @@ func C05dispatch(p *load.Program, run *report.Run) {
 		}
 		if appendsAlias {
 			for _, c := range a.Consts {
-				gc[c] = true
+				gc[c] = all
 			}
 		}
+	}
+	if len(gc) == 0 {
+		// for _, in := range step.Instr.<helper>() { aliases[in.ID] = append(...) }
+		ast.Inspect(fdG.Body, func(n ast.Node) bool {
+			rs, ok := n.(*ast.RangeStmt)
+			if !ok {
+				return true
+			}
+			call, ok := ast.Unparen(rs.X).(*ast.CallExpr)
+			if !ok {
+				return true
+			}
+			sel, ok := call.Fun.(*ast.SelectorExpr)
+			if !ok {
+				return true
+			}
+			fn, ok := pkgG.TypesInfo.Uses[sel.Sel].(*types.Func)
+			if !ok {
+				return true
+			}
+			appends := false
+			ast.Inspect(rs.Body, func(m ast.Node) bool {
+				if as, ok := m.(*ast.AssignStmt); ok {
+					for _, l := range as.Lhs {
+						if ix, ok := l.(*ast.IndexExpr); ok && dispatch.TypedString(pkgG, ix.X) == "<map[ValueID][]Value>" {
+							appends = true
+						}
+					}
+				}
+				return true
+			})
+			if !appends {
+				return true
+			}
+			for _, cd := range calleeDecls(p, pkgG, fdG, 1) {
+				if def, ok := cd.pkg.TypesInfo.Defs[cd.fd.Name].(*types.Func); !ok || def != fn {
+					continue
+				}
+				harms, _ := dispatch.SwitchArms(p, cd.pkg, cd.fd, "<Instr>.Op")
+				for _, a := range harms {
+					pos := map[int]bool{}
+					okArm := false
+					for _, st := range a.Node.(*ast.CaseClause).Body {
+						r, ok := st.(*ast.ReturnStmt)
+						if !ok || len(r.Results) != 1 {
+							continue
+						}
+						switch e := ast.Unparen(r.Results[0]).(type) {
+						case *ast.SelectorExpr:
+							if e.Sel.Name == "In" {
+								pos, okArm = all, true
+							}
+						case *ast.SliceExpr:
+							if se, ok := ast.Unparen(e.X).(*ast.SelectorExpr); ok && se.Sel.Name == "In" {
+								lo, hi := int64(0), int64(4)
+								if e.Low != nil {
+									lo, ok = constOf(cd.pkg, e.Low)
+									if !ok {
+										continue
+									}
+								}
+								if e.High != nil {
+									hi, ok = constOf(cd.pkg, e.High)
+									if !ok {
+										continue
+									}
+								}
+								for k := lo; k < hi; k++ {
+									pos[int(k)] = true
+								}
+								okArm = true
+							}
+						}
+					}
+					if okArm {
+						for _, c := range a.Consts {
+							gc[c] = pos
+						}
+					}
+				}
+			}
+			return true
+		})
+	}
+	// which inputs' wires an opcode can put into its output: from the reference meaning of the wiring opcodes
+	needPos := func(op string) map[int]bool {
+		out := map[int]bool{}
+		for _, sh := range wiringShapes(op) {
+			for _, a := range wiringSpec(sh) {
+				if s, ok := a.(string); ok {
+					if strings.HasPrefix(s, "w0[") {
+						out[0] = true
+					}
+					if strings.HasPrefix(s, "w1[") {
+						out[1] = true
+					}
+				}
+			}
+		}
+		return out
 	}
 	var al []string
 	for k := range t.alias {
@@ -216,7 +320,17 @@ func C05dispatch(p *load.Program, run *report.Run) {
 	run.Count("alias-opcodes", len(al))
 	for _, op := range al {
 		key := "compiler/ssa.Program.GC/alias " + op
-		if gc[op] {
+		missing := -1
+		for pos := range needPos(op) {
+			if gc[op] != nil && !gc[op][pos] {
+				missing = pos
+			}
+		}
+		if gc[op] != nil && missing >= 0 {
+			run.Violate("alias-set", key, p.Rel(fdG.Pos()), fmt.Sprintf("the output of %s can carry wires of its input %d, but Program.GC does not record the output as an alias of that input: a dead temporary stored by %s has its wire ids recycled while the output is live", op, missing, op), nil)
+			continue
+		}
+		if gc[op] != nil {
 			run.OK("alias-set", key, p.Rel(fdG.Pos()), "")
 		} else {
 			run.Violate("alias-set", key, p.Rel(fdG.Pos()), "the streaming handler of "+op+" makes its output share wire ids with its inputs, but Program.GC does not treat "+op+" as an alias: the inputs' ids are recycled while the output is live", nil)
